@@ -24,6 +24,8 @@ type SolverStats struct {
 	Escalated                   int64
 	EscSat, EscUnsat, EscUnk    int64
 	CrossChecked, CrossDiffs    int64
+	IntBlast                    int64
+	IntMode, IntModeRefused     int64
 }
 
 var gstats SolverStats
@@ -39,6 +41,8 @@ type Solver struct {
 	dead     bool
 	bin      string
 	frames   []solverFrame
+	curTimeoutMs int
+	flattened    int // number of innermost open frames that exist only on our side
 }
 
 type solverFrame struct {
@@ -55,6 +59,14 @@ func (s *Solver) Push() {
 func (s *Solver) Pop() {
 	f := s.frames[len(s.frames)-1]
 	s.frames = s.frames[:len(s.frames)-1]
+	if s.flattened > 0 {
+		// the solver process was restarted inside this frame: rebuild it
+		// without the frame's assertions
+		s.flattened = 0
+		s.asserted = s.asserted[:f.nAsserted]
+		s.dead = true
+		return
+	}
 	s.buf.WriteString("(pop 1)\n")
 	for _, t := range f.defs {
 		delete(s.defined, t)
@@ -127,6 +139,7 @@ func (s *Solver) Reset() {
 	s.defined = make(map[*Term]bool)
 	s.asserted = s.asserted[:0]
 	s.frames = s.frames[:0]
+	s.flattened = 0
 }
 
 // define emits declarations/definitions for all subterms of t not yet known.
@@ -200,6 +213,10 @@ func (s *Solver) Check(extra *Term, timeoutMs int, vars []*Term) (res string, mo
 	for _, v := range vars {
 		s.define(v)
 	}
+	if s.dead {
+		s.restartAndReplay()
+	}
+	s.curTimeoutMs = timeoutMs
 	s.marker++
 	mk := fmt.Sprintf("done-%d", s.marker)
 	fmt.Fprintf(&s.buf, "(set-option :timeout %d)\n(push 1)\n", timeoutMs)
@@ -280,8 +297,16 @@ func parseModel(txt string) map[string]uint64 {
 
 func (s *Solver) flushAndRead(marker string) []string {
 	if s.dead {
+		s.buf.Reset()
 		return []string{"unknown"}
 	}
+	// hard watchdog: z3 4.8.12 does not always honour :timeout
+	wd := time.AfterFunc(time.Duration(s.curTimeoutMs+5000)*time.Millisecond, func() {
+		if s.cmd != nil && s.cmd.Process != nil {
+			s.cmd.Process.Kill()
+		}
+	})
+	defer wd.Stop()
 	if dumpStdin != nil {
 		dumpStdin.Write(s.buf.Bytes())
 	}
@@ -306,6 +331,26 @@ func (s *Solver) flushAndRead(marker string) []string {
 			return append(lines, "unknown")
 		}
 	}
+}
+
+// restartAndReplay starts a fresh solver process and re-asserts the path
+// condition (scope frames are flattened; they are all still open).
+func (s *Solver) restartAndReplay() {
+	asserted := append([]*Term{}, s.asserted...)
+	frames := s.frames
+	s.Close()
+	s.start()
+	s.frames = frames
+	for k := range s.frames {
+		s.frames[k].defs = nil
+	}
+	for _, a := range asserted {
+		defineInto(&s.buf, s.defined, a, nil)
+		fmt.Fprintf(&s.buf, "(assert %s)\n", ref(a))
+	}
+	s.asserted = asserted
+	// frames were flattened: popping one must not emit (pop) for the lost level
+	s.flattened = len(s.frames)
 }
 
 // Script renders the current path condition plus extra as a standalone
@@ -335,6 +380,30 @@ func (s *Solver) Script(extra *Term, vars []*Term) string {
 	return b.String()
 }
 
+func writeFileQuiet(path, txt string) { os.WriteFile(path, []byte(txt), 0o644) }
+
+// oneShotRaw is oneShot returning the raw output as well.
+func oneShotRaw(argv []string, script string, timeout time.Duration) (string, map[string]uint64, string) {
+	ctx, cancel := context.WithTimeout(context.Background(), timeout)
+	defer cancel()
+	cmd := exec.CommandContext(ctx, argv[0], argv[1:]...)
+	cmd.Stdin = strings.NewReader(script)
+	out, _ := cmd.Output()
+	txt := string(out)
+	res := "unknown"
+	for _, l := range strings.Split(txt, "\n") {
+		l = strings.TrimSpace(l)
+		if strings.HasPrefix(l, "(error") {
+			return "unknown", nil, txt
+		}
+		if l == "sat" || l == "unsat" {
+			res = l
+			break
+		}
+	}
+	return res, nil, txt
+}
+
 // oneShot runs an external solver on a script.
 func oneShot(argv []string, script string, timeout time.Duration) (string, map[string]uint64) {
 	ctx, cancel := context.WithTimeout(context.Background(), timeout)
@@ -343,13 +412,15 @@ func oneShot(argv []string, script string, timeout time.Duration) (string, map[s
 	cmd.Stdin = strings.NewReader(script)
 	out, _ := cmd.Output()
 	txt := string(out)
-	if strings.Contains(txt, "(error") {
-		return "unknown", nil
-	}
 	lines := strings.Split(txt, "\n")
 	res := "unknown"
 	for _, l := range lines {
 		l = strings.TrimSpace(l)
+		if strings.HasPrefix(l, "(error") {
+			// an error before the verdict makes it inconclusive (an error
+			// after "unsat" is only the refused get-value)
+			return "unknown", nil
+		}
 		if l == "sat" || l == "unsat" {
 			res = l
 			break
@@ -401,4 +472,42 @@ func (s *Solver) crossCheck(extra *Term, got string) {
 		atomic.AddInt64(&gstats.CrossDiffs, 1)
 		debugf("CROSS-SOLVER DIFF: z3=%s cvc5=%s", got, res)
 	}
+}
+
+// hardArith reports whether t contains multiplication/division that
+// bit-blasting handles badly (symbolic*symbolic, division by a non power of
+// two); such queries go to cvc5's integer encoding first.
+func hardArith(t *Term, seen map[*Term]bool) bool {
+	if t == nil || seen[t] {
+		return false
+	}
+	seen[t] = true
+	switch t.Op {
+	case OpMul:
+		if !t.A.IsConst() && !t.B.IsConst() {
+			return true
+		}
+		if t.W >= 32 {
+			return true
+		}
+	case OpUDiv, OpSDiv, OpURem, OpSRem:
+		if !t.B.IsConst() || t.B.Val&(t.B.Val-1) != 0 {
+			if t.W >= 32 {
+				return true
+			}
+		}
+	}
+	return hardArith(t.A, seen) || hardArith(t.B, seen) || hardArith(t.C, seen)
+}
+
+// intBlast runs cvc5 with the integer encoding on pc ∧ extra.
+func (s *Solver) intBlast(extra *Term, vars []*Term, timeout time.Duration) (string, map[string]uint64) {
+	script := "(set-logic ALL)\n" + s.Script(extra, vars)
+	res, m := oneShot([]string{"cvc5", "--lang", "smt2", "--produce-models", "--solve-bv-as-int=sum",
+		fmt.Sprintf("--tlimit=%d", timeout.Milliseconds())}, script, timeout+5*time.Second)
+	n := atomic.AddInt64(&gstats.IntBlast, 1)
+	if res == "unknown" && slowLogDir != "" {
+		os.WriteFile(fmt.Sprintf("%s/intblast-unknown-%d.smt2", slowLogDir, n), []byte(script), 0o644)
+	}
+	return res, m
 }
